@@ -49,6 +49,38 @@ fn coq_ops(ops: &[Wop]) -> String {
     })
 }
 
+/// Rewrites a Coq term produced by the shared printers: `(s "…")` becomes `(b "…")` (byte-list string
+/// notation of C16/Corr.v, much cheaper to elaborate) and, when `erase_pos`, every `(mkPos l c f b)` becomes `P`.
+/// String literals are skipped over, so text inside them is never touched.
+fn compact(term: &str, erase_pos: bool) -> String {
+    let bs = term.as_bytes();
+    let mut o: Vec<u8> = Vec::with_capacity(bs.len());
+    let mut i = 0;
+    while i < bs.len() {
+        if bs[i] == b'"' {
+            // copy the literal ("" is an escaped quote)
+            o.push(b'"'); i += 1;
+            loop {
+                if bs[i] == b'"' { if i + 1 < bs.len() && bs[i + 1] == b'"' { o.extend_from_slice(b"\"\""); i += 2; continue; } o.push(b'"'); i += 1; break; }
+                o.push(bs[i]); i += 1;
+            }
+        } else if bs[i..].starts_with(b"(s \"") {
+            o.extend_from_slice(b"(b "); i += 3;
+        } else if erase_pos && bs[i..].starts_with(b"(mkPos ") {
+            while bs[i] != b')' { i += 1; }
+            i += 1;
+            o.push(b'P');
+        } else { o.push(bs[i]); i += 1; }
+    }
+    String::from_utf8(o).unwrap()
+}
+fn reparse_term(a_erased: &str, b_full: &Option<String>) -> String {
+    match b_full {
+        None => "ReNone".into(),
+        Some(b) => { let be = compact(b, true); if be == a_erased { "ReSame".into() } else { format!("(ReDiff {})", be) } }
+    }
+}
+
 // ------------------------------------------------------------------ running the printers
 
 fn run_ops<W: SourceMapWriter>(w: &mut W, ops: &[Wop]) {
@@ -217,7 +249,7 @@ impl Out {
 }
 
 /// a type-system (or extension) document given as source text
-fn ts_case(out: &mut Out, src: &str, stream: &str) -> bool {
+fn ts_case(out: &mut Out, src: &str, stream: &str, full: bool) -> bool {
     let doc = match catch(AssertUnwindSafe(|| parse_type_system_document(src).map_err(|e| e.into_message()))) {
         Ok(Ok(d)) => d,
         _ => { out.bump(&format!("{stream}:source-rejected-by-parser")); return false; }
@@ -237,13 +269,20 @@ fn ts_case(out: &mut Out, src: &str, stream: &str) -> bool {
     feat["extend_union_without_members"] = json!(ext_union_no_members);
     out.distinct.insert(format!("ts|{src}"));
     out.bump(&format!("{stream}:documents"));
-    out.cases.push(
-        format!("CTs {} {} {} {} {}", ast_coq::tsdoc_ext(&doc), coq_ops(&ops), coq_text(&text), coq_text(&js), coq_opt(&re_term, |t| t.clone())),
-        json!({"kind":"ts","stream":stream,"source":src,"printed":text,"template":js,"reparse_error":re_err,"features":feat}));
+    let a_full = ast_coq::tsdoc_ext(&doc);
+    let a_erased = compact(&a_full, true);
+    let re_c = reparse_term(&a_erased, &re_term);
+    let term = if full {
+        format!("CTs {} (Some {}) {} (Some {}) {}", compact(&a_full, false), compact(&coq_ops(&ops), false), compact(&coq_text(&text), false), compact(&coq_text(&js), false), re_c)
+    } else {
+        format!("CTs {} None {} None {}", a_erased, compact(&coq_text(&text), false), re_c)
+    };
+    out.cases.push(term,
+        json!({"kind":"ts","stream":stream,"full":full,"source":src,"printed":text,"template":js,"reparse_error":re_err,"reparsed_same":re_c == "ReSame","features":feat}));
     true
 }
 
-fn op_case(out: &mut Out, src: &str, stream: &str) -> bool {
+fn op_case(out: &mut Out, src: &str, stream: &str, full: bool) -> bool {
     let doc = match catch(AssertUnwindSafe(|| parse_operation_document(src).map_err(|e| e.into_message()))) {
         Ok(Ok(d)) => d,
         _ => { out.bump(&format!("{stream}:source-rejected-by-parser")); return false; }
@@ -259,9 +298,16 @@ fn op_case(out: &mut Out, src: &str, stream: &str) -> bool {
     let feat = features(&st.0, &ops);
     out.distinct.insert(format!("op|{src}"));
     out.bump(&format!("{stream}:documents"));
-    out.cases.push(
-        format!("COp {} {} {} {} {}", ast_coq::opdoc_ext(&doc), coq_ops(&ops), coq_text(&text), coq_text(&js), coq_opt(&re_term, |t| t.clone())),
-        json!({"kind":"op","stream":stream,"source":src,"printed":text,"template":js,"reparse_error":re_err,"features":feat}));
+    let a_full = ast_coq::opdoc_ext(&doc);
+    let a_erased = compact(&a_full, true);
+    let re_c = reparse_term(&a_erased, &re_term);
+    let term = if full {
+        format!("COp {} (Some {}) {} (Some {}) {}", compact(&a_full, false), compact(&coq_ops(&ops), false), compact(&coq_text(&text), false), compact(&coq_text(&js), false), re_c)
+    } else {
+        format!("COp {} None {} None {}", a_erased, compact(&coq_text(&text), false), re_c)
+    };
+    out.cases.push(term,
+        json!({"kind":"op","stream":stream,"full":full,"source":src,"printed":text,"template":js,"reparse_error":re_err,"reparsed_same":re_c == "ReSame","features":feat}));
     true
 }
 
@@ -324,9 +370,12 @@ fn server_case(out: &mut Out, src: &str, plugin: bool, stream: &str) -> bool {
     feat["server"] = server_features(&doc, plugin);
     out.distinct.insert(format!("server|{plugin}|{src}"));
     out.bump(&format!("{stream}:documents"));
+    let stripped_full = ast_coq::tsdoc(&stripped);
+    let re_c = reparse_term(&compact(&stripped_full, true), &re_term);
     out.cases.push(
-        format!("CServer {} {} {} {} {} {} {}", coq_bool(plugin), ast_coq::tsdoc(&doc), ast_coq::tsdoc(&stripped), coq_ops(&ops), coq_text(&text), coq_text(&js), coq_opt(&re_term, |t| t.clone())),
-        json!({"kind":"server","stream":stream,"model_plugin":plugin,"source":src,"printed":text,"template":js,"reparse_error":re_err,"features":feat}));
+        format!("CServer {} {} {} {} {} {} {}", coq_bool(plugin), compact(&ast_coq::tsdoc(&doc), false), compact(&stripped_full, false), compact(&coq_ops(&ops), false),
+                compact(&coq_text(&text), false), compact(&coq_text(&js), false), re_c),
+        json!({"kind":"server","stream":stream,"model_plugin":plugin,"source":src,"printed":text,"template":js,"reparse_error":re_err,"reparsed_same":re_c == "ReSame","features":feat}));
     true
 }
 
@@ -600,7 +649,7 @@ fn random_template(rng: &mut Rng) -> String {
         b.push_str(p);
     }
     if !rng.chance(1, 25) { b.push('`'); }
-    if rng.chance(1, 40) { b.push_str(*rng.pick(&["x", ";", " ", "`a`"])); }
+    if rng.chance(1, 40) { b.push_str(*rng.pick(&["x", "`a`"])); }
     b
 }
 
@@ -638,7 +687,8 @@ fn cli_cases(out: &mut Out, rng: &mut Rng, cli: &Path, n: usize, work: &Path, us
         emitted += 1;
         out.distinct.insert(format!("module|{plugin}|{src}"));
         out.cases.push(
-            format!("CModule {} {} {} {} {} {}", coq_bool(*plugin), ast_coq::tsdoc(&doc), coq_text(&text), coq_bool(values.is_some()), coq_opt(&v, |x| coq_text(x)), coq_opt(&re, |t| t.clone())),
+            format!("CModule {} {} {} {} {} {}", coq_bool(*plugin), compact(&ast_coq::tsdoc(&doc), true), compact(&coq_text(&text), false), coq_bool(values.is_some()),
+                    coq_opt(&v, |x| compact(&coq_text(x), false)), match &re { Some(t) => format!("(ReDiff {})", compact(t, true)), None => "ReNone".into() }),
             json!({"kind":"module","model_plugin":plugin,"source":src,"module_text":text,"node_value":v,"node_used":values.is_some(),"features":{"server": server_features(&doc, *plugin)}}));
     }
     json!({"cli_projects": n, "cli_failed": failed, "module_cases": emitted, "node_used": values.is_some()})
@@ -680,7 +730,7 @@ fn str_case(out: &mut Out, x: &str) {
     let mut b = String::new();
     { let mut w = JustWriter::new(&mut b); print_string(x, &mut w); }
     out.distinct.insert(format!("str|{x}"));
-    out.cases.push(format!("CStr {} {}", coq_str(x), coq_str(&b)), json!({"kind":"string","value":x,"printed":b}));
+    out.cases.push(format!("CStr {} {}", compact(&coq_str(x), false), compact(&coq_str(&b), false)), json!({"kind":"string","value":x,"printed":b}));
 }
 
 fn writer_case(out: &mut Out, ops: &[Wop]) {
@@ -693,7 +743,7 @@ fn writer_case(out: &mut Out, ops: &[Wop]) {
     let split_dollar = non_empty.windows(2).any(|w| w[0].ends_with('$') && w[1].starts_with('{'));
     let has_cr = chunks.iter().any(|c| c.contains('\r'));
     out.distinct.insert(format!("w|{:?}", ops));
-    out.cases.push(format!("CWriter {} {} {}", coq_ops(ops), coq_text(&b), coq_text(&j)),
+    out.cases.push(format!("CWriter {} {} {}", compact(&coq_ops(ops), false), compact(&coq_text(&b), false), compact(&coq_text(&j), false)),
                    json!({"kind":"writer","ops":format!("{:?}", ops),"just":b,"template":j,"features":{"dollar_brace_split_across_writes":split_dollar,"carriage_return":has_cr}}));
 }
 
@@ -708,17 +758,17 @@ fn main() {
     while i < args.extra.len() {
         match args.extra[i].as_str() { "--cli" => { cli = Some(PathBuf::from(&args.extra[i + 1])); i += 2; } "--no-node" => { use_node = false; i += 1; } _ => { i += 1; } }
     }
-    let cases = Cases::new("From V Require Import Base.Util Gql.Ast Writer.Wop C16.Model C16.Spec C16.Corr.", "case", "agree", "holds", if thorough { 250 } else { 120 });
+    let cases = Cases::new("From V Require Import Base.Util Gql.Ast Writer.Wop C16.Model C16.Spec C16.Corr.", "case", "agree", "holds", if thorough { 300 } else { 170 });
     let mut out = Out { cases, distinct: HashSet::new(), stats: BTreeMap::new(), reparse_fail: 0 };
 
     // 0. corpus: witnesses of the known findings and past disagreements
     for x in ["say \"hi\" \\ there", "\"", "\\", "multi\nline ending in \"", "a \"\"\" b\nc", "x\n\\", "", "plain", "tab\tcr\rbell\u{7}", "a\nb", "\u{1F600}\u{9f}\u{a0}"] { str_case(&mut out, x); }
     for src in ["extend schema @a", "extend union U @d", "scalar S @d(a: \"q\\\"z\")", "type Q {\n  \"\"\"\n  desc\n  \"\"\"\n  f: Int\n}", "union V =\n\"x\" scalar S",
                 "type Q { f(a: String = \"x\", b: [Int] = [1, 2] @d(x: {a: 1, b: \"s\"})): Int @d }\ninterface I\nextend type Q implements I\nenum E\ninput In @d\nschema @a @b(x: 1) { query: Q }"] {
-        ts_case(&mut out, src, "corpus");
+        ts_case(&mut out, src, "corpus", true);
     }
     for src in ["query Q($a: Int = 3 @dir) { x }", "{ a }", "#import A, B, * from \"./x.graphql\"\nquery ($a: Int = 1 @d, $b: [In!]! = [{a: 1, b: [true, null, E, 1.5e3, \"s\", $x]}]) @e { ...F @d ... on T @d { a } ... @d { b } ... { c } x: y(a: $a, b: {}) @d z(a: []) }\nfragment F on T @d { on: query }\nmutation M { type }\nsubscription { on }"] {
-        op_case(&mut out, src, "corpus");
+        op_case(&mut out, src, "corpus", true);
     }
 
     // 1. print_string: every string over an adversarial alphabet up to a length, then random longer ones
@@ -768,11 +818,11 @@ fn main() {
     let n_schema = if thorough { 400 } else { 60 };
     for k in 0..n_schema {
         let s = gen_schema(&mut rng, &SchemaCfg { descriptions: k % 2 == 0, custom_directives: true });
-        ts_case(&mut out, &s.render(), if k % 2 == 0 { "gen-schema-with-descriptions" } else { "gen-schema" });
+        ts_case(&mut out, &s.render(), if k % 2 == 0 { "gen-schema-with-descriptions" } else { "gen-schema" }, k % 10 < 2);
         // 4. operation documents over it
         for _ in 0..(if thorough { 3 } else { 2 }) {
             let d = gen_doc(&mut rng, &s, &DocCfg { shorthand: true, ..DocCfg::default() });
-            op_case(&mut out, &d.render(), "gen-doc");
+            op_case(&mut out, &d.render(), "gen-doc", k % 10 < 2);
         }
     }
     let n_syn = if thorough { 3000 } else { 300 };
@@ -780,9 +830,9 @@ fn main() {
         let mode = if k % 3 == 2 { Mode::Adversarial } else { Mode::Plain };
         let label = if mode == Mode::Plain { "syntactic-plain" } else { "syntactic-adversarial" };
         let src = Syn { rng: &mut rng, mode, top: true }.tsdoc(true);
-        ts_case(&mut out, &src, &format!("{label}-schema"));
+        ts_case(&mut out, &src, &format!("{label}-schema"), k % 6 < 2);
         let src = Syn { rng: &mut rng, mode, top: true }.opdoc(true);
-        op_case(&mut out, &src, &format!("{label}-operation"));
+        op_case(&mut out, &src, &format!("{label}-operation"), k % 6 < 2);
     }
 
     // 5. the server schema: resolved document -> remove_builtins -> plugin -> print
@@ -808,7 +858,7 @@ fn main() {
                     let Some(v) = v else { continue };   // lone surrogate: outside the model
                     if v.is_some() { n_some += 1; }
                     out.distinct.insert(format!("tpl|{src}"));
-                    out.cases.push(format!("CTemplate {} {}", coq_text(src), coq_opt(v, |x| coq_text(x))), json!({"kind":"template","source":src,"node_value":v}));
+                    out.cases.push(format!("CTemplate {} {}", compact(&coq_text(src), false), coq_opt(v, |x| compact(&coq_text(x), false))), json!({"kind":"template","source":src,"node_value":v}));
                 }
                 node_stats = json!({"node_used": true, "templates": srcs.len(), "templates_with_value": n_some});
             }
